@@ -163,9 +163,9 @@ NAMES_EQUALS = ["ratio=1", "a = b", "deform>=0.1", "="]
 NAMES_PADDED = [" leading", "trailing ", "\tboth\t"]
 
 
-def file_case(rng, features, max_filters=20):
+def file_case(rng, features, max_filters=20, min_filters=1):
     """1..max_filters filter descriptions destined for one .poly file."""
-    k = int(rng.integers(1, max_filters + 1))
+    k = int(rng.integers(min_filters, max_filters + 1))
     used_ids = set()
     counter = 0
     filters = []
